@@ -21,8 +21,11 @@ pub struct Post {
 
 pub type Txn = Vec<Post>;
 
-pub fn render(txns: &[Txn]) -> String {
+pub fn render(txns: &[Txn], dp2: &[&'static str]) -> String {
     let mut s = String::new();
+    for c in dp2 {
+        s.push_str(&format!("commodity {}\n    format 1,000.00 {}\n\n", c, c));
+    }
     for (i, t) in txns.iter().enumerate() {
         s.push_str(&format!("2024/01/{:02} t{}\n", i + 1, i));
         for p in t {
@@ -64,7 +67,7 @@ fn nz(m: &mut BTreeMap<&'static str, Decimal>) {
 }
 
 /// Executable reading of C01-C03 (no declared precisions: rounding is the identity).
-pub fn oracle(txns: &[Txn]) -> Verdict {
+pub fn oracle(txns: &[Txn], dp2: &[&'static str]) -> Verdict {
     let mut bal: Bal = BTreeMap::new();
     for t in txns {
         let mut total: BTreeMap<&'static str, Decimal> = BTreeMap::new();
@@ -152,6 +155,11 @@ pub fn oracle(txns: &[Txn]) -> Verdict {
             }
             nz(h);
         } else {
+            // totals are rounded to the commodity's declared precision before the balance test
+            let total: BTreeMap<&'static str, Decimal> = total
+                .iter()
+                .map(|(c, v)| (*c, if dp2.contains(c) { v.round_dp_with_strategy(2, rust_decimal::RoundingStrategy::MidpointNearestEven) } else { *v }))
+                .collect();
             let nonzero: Vec<&Decimal> = total.values().filter(|v| !v.is_zero()).collect();
             if nonzero.is_empty() {
                 // accepted
@@ -236,9 +244,9 @@ fn leak(b: BTreeMap<String, BTreeMap<String, Decimal>>) -> Bal {
     out
 }
 
-pub fn check(txns: &[Txn]) -> Option<(String, String)> {
-    let text = render(txns);
-    let want = oracle(txns);
+pub fn check(txns: &[Txn], dp2: &[&'static str]) -> Option<(String, String)> {
+    let text = render(txns, dp2);
+    let want = oracle(txns, dp2);
     let got = run_real(&text);
     let bad = match (&want, &got) {
         (_, Real::Panic) => Some("the run panicked".to_owned()),
@@ -333,9 +341,39 @@ pub fn run(args: &[String]) -> i32 {
                     let mut txns = h.clone();
                     txns.push(t);
                     evaluated += 1;
-                    if let Some(b) = check(&txns) {
+                    if let Some(b) = check(&txns, &[]) {
                         if bad.len() < 12 {
                             bad.push(b);
+                        }
+                    }
+                }
+            }
+        }
+    }
+    // declared precision: sub-precision residuals (commodity Y printed with two decimals)
+    let pv: Vec<Decimal> = vec![d("0.004"), d("-0.004"), d("0.006"), d("10"), d("-10"), d("10.004"), d("-10.004"), d("0")];
+    for v1 in &pv {
+        for c1 in comms {
+            for v2 in &pv {
+                for c2 in comms {
+                    for third in [None, Some((d("0.004"), "Y")), Some((d("-10"), "X"))] {
+                        for omitted in [false, true] {
+                            let mut t: Txn = vec![
+                                Post { account: "A", amount: Some((*v1, c1)), cost: None, assertion: None },
+                                Post { account: "B", amount: Some((*v2, c2)), cost: None, assertion: None },
+                            ];
+                            if let Some((v, c)) = third {
+                                t.push(Post { account: "C", amount: Some((v, c)), cost: None, assertion: None });
+                            }
+                            if omitted {
+                                t.push(Post { account: "D", amount: None, cost: None, assertion: None });
+                            }
+                            evaluated += 1;
+                            if let Some(b) = check(&[t], &["Y"]) {
+                                if bad.len() < 12 {
+                                    bad.push(b);
+                                }
+                            }
                         }
                     }
                 }
